@@ -237,10 +237,11 @@ def fresh_credentials(ck, m):
     # has_permission: the list it parses comes from a read of the database in the same call
     pb, pspec = m.guard_of_kind('dbname_perm')
     hp = None
-    for bi, t in pb.calls():
-        cb = P.bodies.get(callee(t))
-        if cb is not None and cb.locals[0] == 'bool' and any('PermissionKind' in x for x in cb.locals[1:cb.argc + 1]):
-            hp = cb
+    for ub_ in [pb] + [b_ for b_ in P.user_bodies() if b_.parent == pb.id]:
+        for bi, t in ub_.calls():
+            cb = P.bodies.get(callee(t))
+            if cb is not None and cb.locals[0] == 'bool' and any('PermissionKind' in x for x in cb.locals[1:cb.argc + 1]):
+                hp = cb
     if hp is not None:
         ok = False
         why = 'no call parsing a permission list found'
@@ -485,12 +486,30 @@ def predicates(ck, m):
     inv = fn_call_blocks(pb)
     cut = set()
     perm_calls = []
+    closure_perm = {}     # block of an Option::map_or(true, |key| has_permission(..)) -> (closure body, block of the check in it)
     for bi, t in pb.calls():
         cb = m.prog.bodies.get(callee(t))
         if cb is not None and cb.locals[0] == 'bool' and any('PermissionKind' in x for x in cb.locals[1:cb.argc + 1]):
             perm_calls.append(bi)
             for (sbi, tt, ft) in bool_switches(pb, bi):
                 cut.add((sbi, tt))
+        # `key.map_or(true, |key| has_permission(..))` / `key.is_none_or(|key| ..)`: no key -> true, otherwise the check decides
+        dcl_ = callee_decl(t)
+        if dcl_ in ('std::option::Option::map_or', 'std::option::Option::is_none_or') and t['args']:
+            keyed_ = any(r[0] == 'param' and r[1] == pspec['key_param'] for r in origins(pb, t['args'][0]))
+            dflt_ok = dcl_.endswith('is_none_or') or any(r[0] == 'const' and core.const_val(r) is True for r in origins(pb, t['args'][1]))
+            for a in t['args'][1:]:
+                for r in origins(pb, a):
+                    if r[0] == 'closure' and keyed_ and dflt_ok:
+                        clb = m.prog.bodies.get(r[1])
+                        for cbi, ct in (clb.calls() if clb is not None else []):
+                            hb_ = m.prog.bodies.get(callee(ct))
+                            if hb_ is not None and hb_.locals[0] == 'bool' and any('PermissionKind' in x for x in hb_.locals[1:hb_.argc + 1]) \
+                                    and any(r2[0] == 'call' and r2[1] == cbi for r2 in core.place_origins(clb, {'l': 0}, stop_at_calls=True)):
+                                perm_calls.append(bi)
+                                closure_perm[bi] = (clb, cbi)
+                                for (sbi, tt, ft) in bool_switches(pb, bi):
+                                    cut.add((sbi, tt))
         if callee_decl(t) == 'std::cmp::PartialEq::eq':
             # key == None
             roots = [r for a in t['args'] for r in origins(pb, a)]
@@ -523,6 +542,14 @@ def predicates(ck, m):
         for a in t['args']:
             if any(r[0] == 'param' and r[1] == pspec['perm_param'] for r in origins(pb, a)):
                 passes = True
+        if bi in closure_perm:
+            clb, cbi = closure_perm[bi]
+            site = m.prog.closure_sites().get(clb.id)
+            for a in clb.term(cbi)['args']:
+                for r in origins(clb, a):
+                    if r[0] == 'capture' and site is not None and r[1] < len(site[3]) and \
+                            any(r2[0] == 'param' and r2[1] == pspec['perm_param'] for r2 in origins(site[0], site[3][r[1]])):
+                        passes = True
     ck.ob('C09.b', fn, 'checks-requested-kind', passes, 'the permission check receives the PermissionKind handed to the guard',
           '%s:%s' % (pb.file, pb.line))
 
@@ -550,13 +577,17 @@ def predicates(ck, m):
         for a in inner[0][1]['args'])
     ck.ob('C09.b', short(gb.id), 'delegates', ok, 'delegates to the permission guard with its own arguments',
           '%s:%s' % (gb.file, gb.line))
-    has_permission(ck, m, pb, perm_calls)
+    has_permission(ck, m, pb, perm_calls, closure_perm)
 
 
-def has_permission(ck, m, pb, perm_calls):
+def has_permission(ck, m, pb, perm_calls, closure_perm=None):
     if not perm_calls:
         return
-    hp = m.prog.bodies[callee(pb.term(perm_calls[0]))]
+    if closure_perm and perm_calls[0] in closure_perm:
+        clb_, cbi_ = closure_perm[perm_calls[0]]
+        hp = m.prog.bodies[callee(clb_.term(cbi_))]
+    else:
+        hp = m.prog.bodies[callee(pb.term(perm_calls[0]))]
     fn = short(hp.id)
     # closures of has_permission (transitively)
     cls = [b for b in m.prog.user_bodies() if b.id.startswith(hp.id + '::{closure')]
